@@ -552,6 +552,46 @@ def oracle_c20(h, r):
             fails.append({'what': 'a bag insert issued just before serialize() (item %d) is missing from the image' % (777000 + rk)})
     return fails, []
 
+def copies_check(pid, seed, tier):
+    """harness/copies.cpp: copy / move constructors applied to containers with operations in flight."""
+    exe, err = compile_sim('copies', ['harness/copies.cpp'])
+    if exe is None:
+        return [{'what': 'harness/copies.cpp does not compile against the current headers', 'log': err[-1500:]}], 0
+    want_kinds = {'C11': ['map_copy', 'multimap_copy'], 'C12': ['set_move', 'vector_growth'], 'C13': ['array_copy']}[pid]
+    cfgs = [(2, 2, 'uniform', 16384, 'NONE', 10), (3, 1, 'late', 1, 'NR', 25), (4, 2, 'starve', 0, 'NLNR', 6)]
+    if tier != 'quick':
+        cfgs += [(n, p, pol, kb, rt, 40) for (n, p) in ((1, 1), (5, 5), (6, 2), (8, 4)) for pol in ('uniform', 'early', 'delayreduce') for kb, rt in ((16384, 'NONE'), (1, 'NLNR'))]
+    fails, nobs = [], 0
+    for i, (n, ppn, pol, kb, rt, K) in enumerate(cfgs):
+        r = simrun(exe, n, [K], ppn=ppn, seed=seed * 53 + i, policy=pol, wall=60, env={'YGM_COMM_BUFFER_SIZE_KB': kb, 'YGM_COMM_ROUTING': rt})
+        if r['verdict'] != 'ok':
+            fails.append({'what': 'copy / move constructor run on %d ranks ended with %s %s' % (n, r['verdict'], r['detail']), 'cmd': r['cmd']})
+            continue
+        got = {}
+        for l in r['out']:
+            if l.startswith('CP '):
+                head, rest = l.split(' :', 1)
+                new, _, orig = rest.partition('|')
+                kind = head.split()[1]
+                got.setdefault(kind, [[], []])
+                got[kind][0] += new.split(); got[kind][1] += orig.split()
+        want = {'set_move': sorted(str(i * n + rk) for rk in range(n) for i in range(K)),
+                'vector_growth': sorted(str(i % 3 + 10 * rk) for rk in range(n) for i in range(K)),
+                'map_copy': sorted('%d=%d' % (i * n + rk, 100 + i) for rk in range(n) for i in range(K)),
+                'multimap_copy': sorted('%d=%d' % (i % 4, 1000 * rk + i) for rk in range(n) for i in range(K)),
+                'array_copy': sorted('%d=%d' % (i, 5 + sum(10 * (rk + 1) + i for rk in range(n))) for i in range(2 * n + 1))}
+        for kind in want_kinds:
+            nobs += 1
+            g = got.get(kind)
+            if g is None:
+                fails.append({'what': 'copies harness printed no %s line on %d ranks' % (kind, n), 'cmd': r['cmd']}); continue
+            if sorted(g[0]) != want[kind]:
+                fails.append({'what': '%s on %d ranks: operations issued before the new object was made are missing from it after the next barrier: it holds %d entries %s, issued %d %s' % (
+                    kind, n, len(g[0]), sorted(g[0])[:8], len(want[kind]), want[kind][:8]), 'cmd': r['cmd']})
+            elif kind.endswith('_copy') and sorted(g[1]) != want[kind]:
+                fails.append({'what': '%s on %d ranks: the original holds %d entries after the barrier, issued %d' % (kind, n, len(g[1]), len(want[kind])), 'cmd': r['cmd']})
+    return fails, nobs
+
 ORACLES = {'C11': oracle_c11, 'C12': oracle_c12, 'C13': oracle_c13, 'C14': oracle_c14, 'C15': oracle_c15, 'C16': oracle_c16, 'C20': oracle_c20}
 
 def evaluate(pid, seed, tier):
@@ -574,6 +614,10 @@ def evaluate(pid, seed, tier):
         for x in c:
             x['history'] = h
         cases += c
+    ncopies = 0
+    if pid in ('C11', 'C12', 'C13'):
+        cf, ncopies = copies_check(pid, seed, tier)
+        fails += cf
     n, bad, err = coq_check_cases(pid.lower(), cases)
     if bad is not None:
         d = show_case(bad)
@@ -588,7 +632,7 @@ def evaluate(pid, seed, tier):
     return {'ok': err is None, 'msg': err, 'failures': fails, 'validated': n, 'evaluations': len(hs), 'nontrivial': len({h.text() for h in hs}),
             'rule': 'seeded multi-rank histories (2-4 epochs, key contention, colliding cache slots, handler-side inserts) on the real containers under simmpi; every history text is distinct',
             'samples': samples, 'kind': 'history',
-            'extra': {'cases_checked_in_coq': n, 'cases_with_contention': contention,
+            'extra': {'cases_checked_in_coq': n, 'cases_with_contention': contention, 'copy_or_move_constructions_with_operations_in_flight': ncopies,
                       'layouts': sorted({'%dx%d' % (h.n // h.ppn, h.ppn) for h in hs}), 'capacities_kb': sorted({h.bufkb for h in hs}),
                       'ops_total': sum(len(h.ops) for h in hs)},
             'replay': 'write the history text to a file and run: simmpi/simrun <options from the cmd field> -- containers <file> <outdir>'}
